@@ -41,7 +41,7 @@ MIX = {
             'mark_output': 2, 'connect': 3, 'make_block': 3, 'block_from_slice': 1, 'copy': 1, 'into_bench': 1},
     'C14': {'new': 4, 'add_gate': 9, 'into_bench': 10, 'graphviz_bench': 2, 'make_block': 5, 'block_from_slice': 2,
             'rename': 3, 'remove_gate': 2, 'copy': 2, 'connect': 3, 'mark_output': 2, 'replace_inputs': 2, 'replace_subcircuit': 3,
-            'rebench': 3},
+            'rebench': 3, 'set_outputs': 2, 'order_outputs': 2, 'order_inputs': 1, 'set_inputs': 1},
 }
 
 
@@ -202,6 +202,13 @@ class Hist:
             if cands:
                 self.res.stats.probes.bump('freed-label-reused')
                 return cands[rng.randrange(len(cands))]
+        if rng.random() < 0.06:
+            # gate labels and block names are separate name spaces: a gate may be called like a block (of this circuit
+            # or of another member it will be composed with)
+            names = sorted({b for s in self.pop for b in s.net.blocks if b and b not in net.gates and b not in extra})
+            if names:
+                self.res.stats.probes.bump('gate-labelled-like-a-block')
+                return names[rng.randrange(len(names))]
         self.fresh += 1
         return gennet.make_label(rng, self.cfg.get('alphabet', 'plain'), 100 + self.fresh, set(net.gates) | set(extra))
 
@@ -328,17 +335,40 @@ class Hist:
                 self.pop.remove(s)
         self.ev['st'] = [s.net.digest() for s in touched]
 
+    @staticmethod
+    def owned_lists(real):
+        """The list objects a circuit hands out as its own: c.inputs, c.outputs and every block's inputs / gates / outputs."""
+        out = []
+        try:
+            out += [real.inputs, real.outputs]
+            for b in real.blocks.values():
+                out += [b.inputs, b.gates, b.outputs]
+        except Exception:  # noqa
+            pass
+        return [l for l in out if isinstance(l, list)]
+
     def own_view(self, s, labels, rng, p=0.5):
         """Callers routinely hand a circuit one of the lists it reported itself (`c.inputs`,
         `c.outputs`): when the argument's content equals such a list, pass that very object."""
         if labels and rng.random() < p:
             try:
+                if rng.random() < 0.6:
+                    for b in s.real.blocks.values():
+                        for own in (b.gates, b.outputs, b.inputs):
+                            if list(own) == list(labels):
+                                self.res.stats.probes.bump('argument-is-a-list-owned-by-a-block')
+                                return own
                 if list(labels) == list(s.real.inputs):
                     self.res.stats.probes.bump('argument-is-the-circuits-own-input-list')
                     return s.real.inputs
                 if list(labels) == list(s.real.outputs):
                     self.res.stats.probes.bump('argument-is-the-circuits-own-output-list')
                     return s.real.outputs
+                for b in s.real.blocks.values():
+                    for own in (b.gates, b.outputs, b.inputs):
+                        if list(own) == list(labels):
+                            self.res.stats.probes.bump('argument-is-a-list-owned-by-a-block')
+                            return own
             except Exception:  # noqa
                 pass
         return labels
@@ -347,8 +377,9 @@ class Hist:
         """The caller goes on using (and changing) the list objects it passed in; the
         circuit must not move: it has to hold copies."""
         before, busers = observe.snap(s.real)
+        owned = self.owned_lists(s.real)
         for l in lists:
-            if isinstance(l, list) and l is not getattr(s.real, '_inputs', None) and l is not getattr(s.real, '_outputs', None):
+            if isinstance(l, list) and not any(l is o for o in owned):
                 l.append('__caller_scribble__')
                 l.reverse()
         after, ausers = observe.snap(s.real)
@@ -590,6 +621,10 @@ class Hist:
         outs = [rng.choice(labels) for _ in range(rng.randint(0, 4))]
         if rng.random() < 0.12:
             outs = list(s.net.inputs if rng.random() < 0.5 else s.net.outputs)
+        elif s.net.blocks and rng.random() < 0.12:
+            # "the outputs of this block are the outputs of the circuit"
+            blk = s.net.blocks[rng.choice(sorted(s.net.blocks))]
+            outs = list(blk[1] if rng.random() < 0.5 else blk[2])  # (inputs, gates, outputs)
         valid = True
         if rng.random() < self.cfg['p_invalid']:
             outs.append('__absent__')
@@ -648,6 +683,11 @@ class Hist:
             return
         outs = list(s.net.outputs)
         part = rng.sample(outs, rng.randint(0, len(outs)))  # sub-multiset by position
+        for bname in sorted(s.net.blocks):
+            blk = s.net.blocks[bname]
+            for key in (1, 2):  # (inputs, gates, outputs)
+                if blk[key] and sorted(blk[key]) == sorted(outs) and rng.random() < 0.5:
+                    part = list(blk[key])  # the order in which a block lists them
         valid = True
         if rng.random() < max(self.cfg['p_invalid'], 0.05):
             if part and rng.random() < 0.6:
@@ -713,6 +753,9 @@ class Hist:
             return
         labels = list(s.net.gates)
         name = f'blk{rng.randint(0, 5)}'
+        if rng.random() < 0.08:
+            name = rng.choice(labels)  # a block called like one of the gates
+            self.res.stats.probes.bump('block-named-like-a-gate')
         valid = name not in s.net.blocks
         gates = rng.sample(labels, rng.randint(0, min(len(labels), 5)))
         outs = [rng.choice(labels) for _ in range(rng.randint(0, 2))]
